@@ -366,7 +366,13 @@ func Judge(kind string, e Expect, o Observed) []finding {
 	if o.Panic {
 		add("panic", o.PanicLog)
 	}
+	if o.Aborted {
+		add("aborted", "the server dropped the connection without an HTTP status (what net/http does with a handler that panicked)")
+	}
 	for _, p := range o.Problems {
+		if o.Aborted && strings.HasPrefix(p, "the connection was dropped") {
+			continue
+		}
 		add("peer-problem", p)
 	}
 	if o.Dup {
